@@ -124,6 +124,52 @@ End MemoStoreProofs.
 
 (** the table as the code has it: keyed by a 64-bit hash [H] of what the key function feeds.
     Premise: [H] has no collision among the keys of the history. *)
+
+(** the table that is consulted and filled only for inputs passing a gate: transparent as soon as
+    the key determines [f] among the gated inputs *)
+Section MemoGatedProofs.
+  Context {X K V : Type}.
+  Variable keqb : K -> K -> bool.
+  Hypothesis keqb_spec : forall a b, keqb a b = true <-> a = b.
+  Variable gate : X -> bool.
+  Variable key : X -> K.
+  Variable f : X -> V.
+
+  Definition sufficient_gated_on (h : list X) : Prop :=
+    forall x y, In x h -> In y h -> gate x = true -> gate y = true -> key x = key y -> f x = f y.
+  Definition table_ok_gated (t : list (K * V)) (h : list X) : Prop :=
+    forall k v, lookup keqb k t = Some v -> forall x, In x h -> gate x = true -> key x = k -> v = f x.
+
+  Lemma memo_gated_from_ok : forall h t,
+    sufficient_gated_on h -> table_ok_gated t h ->
+    run_memo_gated_from keqb gate key f t h = map f h.
+  Proof.
+    induction h as [|x h IH]; intros t Hs Ht; [reflexivity|].
+    assert (Hs' : sufficient_gated_on h).
+    { intros a b Ha Hb. apply Hs; right; assumption. }
+    assert (Ht' : table_ok_gated t h).
+    { intros k v Hl y Hy Gy Hk. apply (Ht k v Hl y); [right; assumption | assumption | assumption]. }
+    cbn [run_memo_gated_from map].
+    destruct (gate x) eqn:G; [|f_equal; apply IH; assumption].
+    destruct (lookup keqb (key x) t) as [v|] eqn:L.
+    - assert (v = f x) by (apply (Ht _ _ L x); [left; reflexivity | assumption | reflexivity]). subst v.
+      f_equal. apply IH; assumption.
+    - f_equal. apply IH; [assumption|].
+      intros k v Hl y Hy Gy Hk. cbn [lookup] in Hl.
+      destruct (keqb k (key x)) eqn:E.
+      + injection Hl as <-. apply keqb_spec in E. subst k.
+        apply Hs; [left; reflexivity | right; assumption | assumption | assumption | symmetry; assumption].
+      + apply (Ht k v Hl y); [right; assumption | assumption | assumption].
+  Qed.
+
+  Theorem memo_gated_transparent_on : forall history,
+    sufficient_gated_on history -> run_memo_gated keqb gate key f history = map f history.
+  Proof.
+    intros h Hs. apply memo_gated_from_ok; [assumption|].
+    intros k v Hl. discriminate Hl.
+  Qed.
+End MemoGatedProofs.
+
 Theorem memo_transparent_hashed :
   forall {X K V : Type} (H : K -> N) (usable : V -> bool) (key : X -> K) (f : X -> V) (history : list X),
     sufficient key f ->
@@ -172,36 +218,18 @@ End NodeInd.
 
 (* ------------------------------------------------------------------ 4. signature cache *)
 
-(** on an erased tree, put back the signature the table assigns to each body hash *)
-Fixpoint fillsig (T : N -> N) (x : node) : node :=
-  match x with
-  | NMod p args s => NMod p (map (fun a => (fillsig T (fst a), snd a)) args) s
-  | NCall i _ x h o b s => NCall i (T h) x h o b s
-  | NRun ns => NRun (map (fillsig T) ns)
-  | other => other
-  end.
-
-Lemma sig_deps_fill : forall T x, wf_sig T x = true -> sig_deps x = fillsig T (erase x).
+(** since 8592559 a call feeds its handle's signature field: the key IS what the checker reads *)
+Lemma sig_deps_erase : forall x, sig_deps x = erase x.
 Proof.
-  intros T. induction x using node_ind'; intros W; cbn [sig_deps erase fillsig wf_sig] in *; try reflexivity.
-  - f_equal. rewrite map_map. apply map_ext_in. intros a Ha. cbn [fst snd].
-    rewrite Forall_forall in H. rewrite forallb_forall in W. rewrite (H a Ha (W a Ha)). reflexivity.
-  - apply N.eqb_eq in W. subst fs. reflexivity.
-  - f_equal. rewrite map_map. apply map_ext_in. intros a Ha.
-    rewrite Forall_forall in H. rewrite forallb_forall in W. apply H; auto.
+  (* the two functions are now the same fixpoint up to the names *)
+  intro x. reflexivity.
 Qed.
 
-(** the signature cache's key determines everything the checker reads, as long as a
-    function's [sig] field is determined by its body hash *)
-Theorem sig_cache_sufficient : forall T (x y : list node),
-  forallb (wf_sig T) x = true -> forallb (wf_sig T) y = true ->
+Theorem sig_cache_sufficient : forall (x y : list node),
   sig_key x = sig_key y -> sig_cache_deps x = sig_cache_deps y.
 Proof.
-  intros T x y Wx Wy E. unfold sig_key, sig_cache_deps in *.
-  rewrite forallb_forall in Wx, Wy.
-  assert (R : forall l, (forall a, In a l -> wf_sig T a = true) -> map sig_deps l = map (fillsig T) (map erase l)).
-  { intros l W. rewrite map_map. apply map_ext_in. intros a Ha. apply sig_deps_fill. apply W; assumption. }
-  rewrite (R x Wx), (R y Wy), E. reflexivity.
+  intros x y E. unfold sig_key, sig_cache_deps in *.
+  rewrite (map_ext _ _ sig_deps_erase x), (map_ext _ _ sig_deps_erase y). exact E.
 Qed.
 
 (* ------------------------------------------------------------------ 6. comptime evaluation cache *)
@@ -298,92 +326,92 @@ Proof.
   rewrite Rx, Ry. rewrite (pre_cache_sufficient' B x y Wx Wy Gx Gy E). reflexivity.
 Qed.
 
-(* ------------------------------------------------------------------ 1-3, 7: the [hash_deep] keys (25aa9f6, 7da4086) *)
 
-(** on a [deep] / [shallow] tree, put back the signature the table assigns to each body hash *)
-Fixpoint fillsigd (T : N -> N) (x : node) : node :=
-  match x with
-  | NMod p args s => NMod p (map (fun a => (fillsigd T (fst a), snd a)) args) s
-  | NCall i _ x h o b s => NCall i (T h) x h o (fillsigd T b) s
-  | NRun ns => NRun (map (fillsigd T) ns)
-  | other => other
-  end.
+(** since 49da69f the comptime cache is consulted and filled only for nodes that do not read the
+    backend: transparent on every history of well-formed inputs, for every function of what
+    running the node reads — the backend included *)
+Section PreGated.
+  Context {K V : Type}.
+  Variable keqb : K -> K -> bool.
+  Hypothesis keqb_spec : forall a b, keqb a b = true <-> a = b.
 
-Lemma no_origin_fill : forall T x, wf_sigd T x = true -> no_origin x = fillsigd T (deep x).
+  Theorem pre_cache_gated_transparent : forall impure B (kinj : node -> K),
+    (forall a b, kinj a = kinj b -> a = b) ->
+    forall (g : (node * list (option (N * bool))) * option N -> V) (history : list pre_input_b),
+    (forall x, In x history -> wf_body B node_eqb (fst (fst x)) = true /\ globals (fst (fst x)) = []) ->
+    run_memo_gated keqb (fun x => negb (reads_backend impure (fst (fst x)))) (fun x => kinj (pre_key_b x))
+                   (fun x => g (pre_deps_b impure x)) history
+    = map (fun x => g (pre_deps_b impure x)) history.
+  Proof.
+    intros impure B kinj Hinj g h W. apply (memo_gated_transparent_on keqb keqb_spec).
+    intros x y Hx Hy Gx Gy E. apply Hinj in E.
+    apply Bool.negb_true_iff in Gx, Gy.
+    destruct (W x Hx) as [Wx Nx]. destruct (W y Hy) as [Wy Ny].
+    rewrite (pre_cache_sufficient_b impure B x y Wx Wy Nx Ny Gx Gy E). reflexivity.
+  Qed.
+End PreGated.
+
+(* ------------------------------------------------------------------ 1-3, 7: the [hash_deep] keys (25aa9f6, 7da4086, 8592559) *)
+
+Lemma no_origin_deep : forall x, no_origin x = deep x.
 Proof.
-  intros T. induction x using node_ind'; intros W; cbn [no_origin deep fillsigd wf_sigd] in *; try reflexivity.
-  - f_equal. rewrite map_map. apply map_ext_in. intros a Ha. cbn [fst snd].
-    rewrite Forall_forall in H. rewrite forallb_forall in W. rewrite (H a Ha (W a Ha)). reflexivity.
-  - apply andb_prop in W. destruct W as [W1 W2]. apply N.eqb_eq in W1. subst fs. rewrite (IHx W2). reflexivity.
-  - f_equal. rewrite map_map. apply map_ext_in. intros a Ha.
-    rewrite Forall_forall in H. rewrite forallb_forall in W. apply H; auto.
+  (* the two functions are the same fixpoint up to the names *)
+  intro x. reflexivity.
 Qed.
 
 (** the inverse caches' key determines everything the cached value is made of — spans, function
-    indices, bodies and NAMES — (all but the origin field of the handles) *)
-Theorem inv_cache_sufficient : forall T (x y : inv_input),
-  forallb (wf_sigd T) (fst x) = true -> forallb (wf_sigd T) (fst y) = true ->
+    indices, signatures, bodies and names, and the extra arguments ((g_sig, inverse) for
+    under, for_un for anti) — (all but the origin field of the handles) *)
+Theorem inv_cache_sufficient : forall (x y : inv_input),
   inv_key x = inv_key y -> inv_deps_named x = inv_deps_named y.
 Proof.
-  intros T [x ex] [y ey] Wx Wy E. unfold inv_key, inv_deps_named in *. cbn [fst snd] in *.
-  injection E as E1 E2. subst ey. f_equal.
-  rewrite forallb_forall in Wx, Wy.
-  assert (R : forall l, (forall a, In a l -> wf_sigd T a = true) -> map no_origin l = map (fillsigd T) (map deep l)).
-  { intros l W. rewrite map_map. apply map_ext_in. intros a Ha. apply no_origin_fill. apply W; assumption. }
-  rewrite (R x Wx), (R y Wy), E1. reflexivity.
+  intros [x ex] [y ey] E. unfold inv_key, inv_deps_named in *. cbn [fst snd] in *.
+  rewrite (map_ext _ _ no_origin_deep x), (map_ext _ _ no_origin_deep y). exact E.
 Qed.
 
-Lemma zip_no_origin_fill : forall T x, wf_sig T x = true -> no_bodies (no_origin x) = fillsig T (shallow x).
+Lemma zip_no_origin_shallow : forall x, no_bodies (no_origin x) = shallow x.
 Proof.
-  intros T. induction x using node_ind'; intros W; cbn [no_bodies no_origin shallow fillsig wf_sig] in *; try reflexivity.
-  - f_equal. rewrite !map_map. apply map_ext_in. intros a Ha. cbn [fst snd].
-    rewrite Forall_forall in H. rewrite forallb_forall in W. rewrite (H a Ha (W a Ha)). reflexivity.
-  - apply N.eqb_eq in W. subst fs. reflexivity.
-  - f_equal. rewrite !map_map. apply map_ext_in. intros a Ha.
-    rewrite Forall_forall in H. rewrite forallb_forall in W. apply H; auto.
+  induction x using node_ind'; cbn [no_bodies no_origin shallow]; try reflexivity.
+  - f_equal. rewrite map_map. apply map_ext_in. intros a Ha. cbn [fst snd].
+    rewrite Forall_forall in H. rewrite (H a Ha). reflexivity.
+  - f_equal. rewrite map_map. apply map_ext_in. intros a Ha. rewrite Forall_forall in H. apply H; assumption.
 Qed.
 
 (** the fast-function cache's key ([hash_deep(None)]: the bodies are not walked) determines the
     closure, names included: the closure does not contain the bodies, it resolves the
     function index in the assembly that is current when it runs *)
-Theorem zip_cache_sufficient : forall T (x y : node),
-  wf_sig T x = true -> wf_sig T y = true ->
+Theorem zip_cache_sufficient : forall (x y : node),
   zip_key x = zip_key y -> zip_deps_named x = zip_deps_named y.
 Proof.
-  intros T x y Wx Wy E. unfold zip_key, zip_deps_named in *.
-  rewrite (zip_no_origin_fill T x Wx), (zip_no_origin_fill T y Wy), E. reflexivity.
+  intros x y E. unfold zip_key, zip_deps_named in *. rewrite !zip_no_origin_shallow. exact E.
 Qed.
 
-(** hence: with the current keys, on every history (of well-formed inputs) a hit returns what
-    a fresh computation returns, for every function of those dependencies (trees, errors
-    and traces that mention names included) *)
+(** hence: with the current keys, on every history a hit returns what a fresh computation
+    returns, for every function of those dependencies (trees, errors and traces that
+    mention names included) *)
 Section Transparent.
   Context {K V : Type}.
   Variable keqb : K -> K -> bool.
   Hypothesis keqb_spec : forall a b, keqb a b = true <-> a = b.
 
-  Theorem inv_cache_transparent : forall T (kinj : list node * (N * bool) -> K),
+  Theorem inv_cache_transparent : forall (kinj : list node * (N * bool) -> K),
     (forall a b, kinj a = kinj b -> a = b) ->
     forall (g : list node * (N * bool) -> V) usable (history : list inv_input),
-    (forall x, In x history -> forallb (wf_sigd T) (fst x) = true) ->
     run_memo keqb usable (fun x => kinj (inv_key x)) (fun x => g (inv_deps_named x)) history
     = map (fun x => g (inv_deps_named x)) history.
   Proof.
-    intros T kinj Hinj g usable h W. apply (memo_transparent_on keqb keqb_spec).
-    intros x y Hx Hy E. apply Hinj in E.
-    rewrite (inv_cache_sufficient T x y (W x Hx) (W y Hy) E). reflexivity.
+    intros kinj Hinj g usable h. apply (memo_transparent keqb keqb_spec).
+    intros x y E. apply Hinj in E. rewrite (inv_cache_sufficient x y E). reflexivity.
   Qed.
 
-  Theorem zip_cache_transparent : forall T (kinj : node -> K),
+  Theorem zip_cache_transparent : forall (kinj : node -> K),
     (forall a b, kinj a = kinj b -> a = b) ->
     forall (g : node -> V) usable (history : list node),
-    (forall x, In x history -> wf_sig T x = true) ->
     run_memo keqb usable (fun x => kinj (zip_key x)) (fun x => g (zip_deps_named x)) history
     = map (fun x => g (zip_deps_named x)) history.
   Proof.
-    intros T kinj Hinj g usable h W. apply (memo_transparent_on keqb keqb_spec).
-    intros x y Hx Hy E. apply Hinj in E.
-    rewrite (zip_cache_sufficient T x y (W x Hx) (W y Hy) E). reflexivity.
+    intros kinj Hinj g usable h. apply (memo_transparent keqb keqb_spec).
+    intros x y E. apply Hinj in E. rewrite (zip_cache_sufficient x y E). reflexivity.
   Qed.
 End Transparent.
 
@@ -424,17 +452,16 @@ Section StoreTransparent.
   Variable keqb : K -> K -> bool.
   Hypothesis keqb_spec : forall a b, keqb a b = true <-> a = b.
 
-  Theorem inv_cache_store_transparent : forall T (kinj : list node * (N * bool) -> K),
+  Theorem inv_cache_store_transparent : forall (kinj : list node * (N * bool) -> K),
     (forall a b, kinj a = kinj b -> a = b) ->
     forall (u : list node * (N * bool) -> bool) (g : list node * (N * bool) -> option N -> V) usable
            (history : list inv_input_l),
-    (forall x, In x history -> forallb (wf_sigd T) (fst (fst x)) = true) ->
     run_memo_store keqb usable (inv_store_l u) (fun x => kinj (inv_key_l x)) (inv_f_l u g) history
     = map (inv_f_l u g) history.
   Proof.
-    intros T kinj Hinj u g usable h W. apply (memo_store_transparent_on keqb keqb_spec).
+    intros kinj Hinj u g usable h. apply (memo_store_transparent_on keqb keqb_spec).
     intros [x lx] [y ly] Hx Hy St E. apply Hinj in E. unfold inv_key_l in E. cbn [fst] in E.
-    pose proof (inv_cache_sufficient T x y (W _ Hx) (W _ Hy) E) as D.
+    pose proof (inv_cache_sufficient x y E) as D.
     unfold inv_store_l, inv_f_l in *. cbn [fst snd] in *. rewrite <- D.
     destruct (u (inv_deps_named x)); [discriminate St | reflexivity].
   Qed.
